@@ -237,7 +237,7 @@ type Ret struct {
 // WFault is a planned fault of the underlying writer.
 type WFault struct {
 	At   int // index of the Write call (0-based)
-	Kind int // 1 short write, 2 error without bytes
+	Kind int // 1 short write with error, 2 error without bytes, 3 short write without error
 	Keep int // bytes accepted for a short write
 }
 
